@@ -1897,7 +1897,7 @@ def note_array_from_part_list(
     onset_unit, _ = get_time_units_from_note_array(note_array)
 
     # sort by onset and pitch
-    pitch_sort_idx = np.argsort(note_array["pitch"])
+    pitch_sort_idx = np.argsort(note_array["pitch"], kind="stable")
     note_array = note_array[pitch_sort_idx]
     onset_sort_idx = np.argsort(note_array[onset_unit], kind="mergesort")
     note_array = note_array[onset_sort_idx]
